@@ -127,7 +127,7 @@ def pyFunc (name : String) (args : List Expr) (kwn : List String) (_kwv : List E
 /-- library without tasks: enough for Python-level application inside task bodies -/
 def pyLib : Lib := { task := fun _ => none, isSub := isSub, pyfunc := pyFunc, fields := fieldsOf }
 
-def tcall (t : String) (args : List Expr) : Expr := .call t args [] []
+def tcall (t : String) (args : List Expr) : Expr := .call t args [] [] [] []
 
 def rangeE (n : Int) : List Expr := (List.range n.toNat).map (fun (i : Nat) => Expr.int (Int.ofNat i))
 
@@ -324,6 +324,19 @@ def libTask : String → Option TaskDef
       | .int n => if n ≤ 0 then .ok (tcall "ev.s_raiser" [a "kind", .str "sdeep"])
                   else .ok (tcall "ev.s_fail_after" [.int (n - 1), a "kind"])
       | _ => .unk
+  -- tasks reading the context through default arguments / in their body
+  | "ev.ctx_scale" => some <| mkTask [p "x", pd "k" (.getCtx "k" (.int 1)), pd "m" (.getCtx "m" (.int 1))] fun a =>
+      match pyMul (a "x") (a "k") with
+      | .ok xk => pyMul xk (a "m")
+      | o => o
+  | "ev.ctx_offset" => some <| mkTask [p "x", pd "j" (.getCtx "j" (.int 0))] fun a => pyAdd (a "x") (a "j")
+  | "ev.ctx_flow" => some <| mkTask [p "x"] fun a =>
+      match pyAdd (a "x") (.int 1) with
+      | .ok x1 => .ok (L [tcall "ev.ctx_offset" [tcall "ev.ctx_scale" [a "x"]], tcall "ev.ctx_scale" [x1]])
+      | o => o
+  | "ev.ctx_body" => some <| mkTask [p "x"] fun a => .ok (L [a "x", .getCtx "k" (.int (-1)), .getCtx "q" .none])
+  | "ev.ctx_inner_override" => some <| mkTask [p "x"] fun a =>
+      .ok (L [.call "ev.ctx_scale" [a "x"] [] [] ["k"] [.int 9], tcall "ev.ctx_scale" [a "x"]])
   | "ev.a_inc" => some <| mkTask [p "x"] fun a => pyAdd (a "x") (.int 1)
   -- `y = await inc(x); return inc(y)`: the awaited expression is evaluated under the same job
   | "ev.a_twice" => some <| mkTask [p "x"] fun a => .ok (tcall "ev.inc" [tcall "ev.inc" [a "x"]])
